@@ -78,6 +78,13 @@ def inputs(ctx):
         texts.append(["x", s])
         texts.append([s, "", "y"])
         texts.append([s + " " + s])
+    # every arrangement of text lines and empty lines up to six lines (runs of several empty lines,
+    # leading and trailing ones included)
+    import itertools
+    for ln in range(2, 7):
+        for shape in itertools.product("TE", repeat=ln):
+            if "T" in shape and "E" in shape:
+                texts.append(["" if c == "E" else "w%d" % i for i, c in enumerate(shape)])
     for lines in texts:
         for w in WR:
             if w == "MicroDVD" and any("|" in l for l in lines):
@@ -89,7 +96,9 @@ def inputs(ctx):
     for k in range(1500 if ctx.quick else 60000):
         lines = [_rand_text(rng) for _ in range(rng.randrange(1, 5))]
         if rng.random() < 0.25 and len(lines) > 1:
-            lines.insert(rng.randrange(1, len(lines)), "")
+            at = rng.randrange(1, len(lines))
+            for _ in range(rng.choice([1, 1, 2, 3])):
+                lines.insert(at, "")
         lines = [l if l.strip() else "" for l in lines]
         if not any(l.strip() for l in lines):
             continue
